@@ -31,6 +31,16 @@ _lock = threading.Lock()
 _n = [0]
 
 
+def _jenv(ctx, extra=None):
+    """own java.io.tmpdir: TLC unpacks its standard modules there, and /tmp is shared with other jobs"""
+    d = os.path.join(ctx.workdir, "jtmp")
+    os.makedirs(d, exist_ok=True)
+    e = {"JAVA_TOOL_OPTIONS": "-Djava.io.tmpdir=" + d}
+    if extra:
+        e.update(extra)
+    return e
+
+
 def _metadir(ctx, tag):
     with _lock:
         _n[0] += 1
@@ -40,7 +50,7 @@ def _metadir(ctx, tag):
 def _validate(ctx, cfg, trace, timeout=900, heap="3g"):
     """TeehistTrace on one trace file. Returns (TlcResult, accepted, reject lines)."""
     res = core.run_tlc("TeehistTrace.tla", cfg, cwd=SPECDIR, workers=1, timeout=timeout,
-                       env={"TRACE": os.path.abspath(trace)}, heap=heap, stack="1g", deque=True,
+                       env=_jenv(ctx, {"TRACE": os.path.abspath(trace)}), heap=heap, stack="1g", deque=True,
                        metadir=_metadir(ctx, "trace"))
     rej = [l for l in res.out.splitlines() if l.startswith('<<"REJECT"') or l.startswith('<<"PROP-REJECT"')
            or l.startswith('<<"TRACE REJECTED"')]
@@ -52,7 +62,7 @@ def _pipe(ctx, module, cfg, exe, mis, timeout):
     time.sleep(0.05 * _n[0])
     with _lock:
         _n[0] += 1
-    tres, rc, out = core.tlc_pipe(module, cfg, [exe, "replay", mis, str(ctx.seed)], cwd=SPECDIR, timeout=timeout)
+    tres, rc, out = core.tlc_pipe(module, cfg, [exe, "replay", mis, str(ctx.seed)], cwd=SPECDIR, timeout=timeout, env=_jenv(ctx))
     if rc == 97:
         m = re.search(r"^HANG (.*)$", out, re.M)
         return tres, None, (m.group(1) if m else "{}")
@@ -260,9 +270,9 @@ def run(ctx):
     w = 2 if quick else 4
     with cf.ThreadPoolExecutor(max_workers=6) as ex:
         f_buf = ex.submit(core.run_tlc, "MC_TeehistBuf.tla", "MC_buf_%s.cfg" % tier, cwd=SPECDIR, workers=w,
-                          timeout=1500, coverage=True, metadir=_metadir(ctx, "buf"))
+                          timeout=1500, coverage=True, metadir=_metadir(ctx, "buf"), env=_jenv(ctx))
         f_pin = ex.submit(core.run_tlc, "MC_TeehistTicks.tla", "MC_ticks_pinned.cfg", cwd=SPECDIR, workers=1,
-                          timeout=600, metadir=_metadir(ctx, "pin"))
+                          timeout=600, metadir=_metadir(ctx, "pin"), env=_jenv(ctx))
         f_e1 = ex.submit(_pipe, ctx, "MC_TeehistTicks.tla", "Exp_ticks_%s.cfg" % tier, exe, mis1, 1500)
         f_e2 = ex.submit(_pipe, ctx, "MC_TeehistBuf.tla", "Exp_buf_%s.cfg" % tier, exe, mis2, 1500)
         f_drv = ex.submit(core.run_harness, [exe, "drive", str(ctx.seed), tier, os.path.join(wd, "trace")],
